@@ -69,7 +69,8 @@ def run_case(mod_name, case, tier, seed, validate_n):
 
     def on_path(pr):
         if pr.kind == 'ok':
-            path_models.append((pr.inputs, pr.small, _plain(pr.value, pr.model), eval_safe(pr.value, pr.model)))
+            path_models.append((pr.inputs, pr.small, _plain(pr.value, pr.model),
+                                eval_safe(pr.value, pr.model) if pr.small else ('err', 'large model')))
 
     def eval_safe(v, m):
         try:
